@@ -106,3 +106,8 @@ def assume_pre(**ghost):
 
 def fromhex(s):
     return bytes.fromhex(s)
+
+
+def use_lemma(lemma_fn, s):
+    """proof hint: the named lemma (proved by its own obligations) holds for sequence s"""
+    return True
